@@ -299,7 +299,7 @@ spec("C20",
      )
 
 spec("C06",
-     cmd="c06", count=dict(quick=70, thorough=2500),
+     cmd="c06", count=dict(quick=220, thorough=4000),
      vo_targets=["props/C06.vo"],
      level="proof",
      rule="case 0: the bundled hi.vm model plus the corpus of tile-size lists the constructor must reject or render ([0], [8,0], [1], [5]); then 2D CSG of circles / rectangles / rotated shapes (60%) or random expressions (choice-heavy 60%, up to 30 operations); image sizes 1..96 per axis (non-square, 95% not multiples of the root tile), valid tile-size lists of 1..4 levels with factors 2,3,4,8 and last size 1,2,3,4,5,8, view transforms (identity / scale / translate+scale / rotate+scale), slice height 0 or random, pixel-perfect 35%, interpreter and JIT, no pool / global pool / custom pools of 1..8 threads; every pixel of every image is compared with operation-by-operation evaluation at its sample position (value bits in pixel-perfect mode, inside() otherwise; a Fill on the wrong side counts unless the value is within 1e-4 of zero relative to the largest intermediate); images of at most 1600 pixels are also rendered by the f32 instance of the Coq model and compared pixel for pixel including Fill depths; distinct_nontrivial = distinct configurations",
@@ -309,7 +309,7 @@ spec("C06",
      )
 
 spec("C07",
-     cmd="c07", count=dict(quick=60, thorough=2000),
+     cmd="c07", count=dict(quick=120, thorough=3000),
      vo_targets=["props/C07.vo"],
      level="proof",
      rule="3D CSG of spheres / boxes / scaled spheres (70%) or random expressions; voxel grids 1..40 per axis (width != height != depth, 77% with depth not a multiple of the root tile), valid tile-size lists of 1..4 levels (root <= 64), view transforms (identity / scale / translate+scale / Euler rotation+scale), interpreter and JIT, no pool / global / custom pools; brute force over every voxel of every column, operation by operation: depth = 1 + highest negative voxel (0 if none); columns with a negative voxel above the grid within one root tile or a NaN are outside the claim; a mismatch counts unless some voxel of the column is within 1e-4 of zero; normals of surface pixels are compared with the gradient evaluator at the hit voxel (2e-3 relative; a report needs more than 2% of the surface pixels); grids of at most 12000 voxels are also rendered by the f32 instance of the Coq model, depth and normal compared bit for bit; distinct_nontrivial = distinct configurations",
